@@ -10,6 +10,9 @@ import Rdm.Lemmas.BiasAFatigue
 import Rdm.Lemmas.BiasAFatigueSpec
 import Rdm.Lemmas.BiasAFatigueCheck
 import Rdm.Spec.C17
+import Rdm.Lemmas.E2EBiasesState
+import Rdm.Lemmas.E2EBiasesParts
+import Rdm.Lemmas.E2EBiasesExample
 set_option linter.unusedSectionVars false
 open Rdm Rdm.BiasA
 namespace Rdm.Props.C17
@@ -239,5 +242,266 @@ example :
 /-- the constants and names this property depends on were re-read from the working tree on this run
     (none fell back to its pinned value because its declaration could not be located) -/
 theorem facts_fresh : (Rdm.Facts.staleFacts.all fun n => !["fatigueSignHalf", "fatigueConst", "fatigueExp", "wiringFatigueGenerators", "defaultBoundingScaling", "biasFatigue"].contains n) = true := by decide
+
+/-! ## END TO END: a fired fatigue inside a whole request
+
+The theorems above are about one `Fatigue.Apply` in isolation.  Below they are lifted to responses of `decideWith`
+(Model/Decide.lean): every entry of `resp.biases` that carries a fatigue report — at any position of any bias
+list, whatever fired before and after, for all seven methods — is one `fatigueApply` from the state `s` it received
+to the state `s'` it handed on (`E2EBFired`, Lemmas/E2EBiases.lean).  The values `v` of the bound `|f·v|`, the
+criteria and the ranges the bounding scales are those of the CURRENT state `s` (after every earlier bias), not of
+the request; both generators read the stream of the entry's `randomSeed`. -/
+
+section e2e
+variable {exp : α → α} {o : List (WCrit α) → List (WCrit α)} {req : Request α} {g : Int → Draws α}
+  {resp : Response α} {params s s' : DMP α} {chosen : List (Chosen α (BProps α))} {i : Nat} {name : String}
+  {prob : α} {fn : FatigueFn α} {bd : Bounding α} {seed : Int} {rep : FatigueReport α}
+
+/-- **Every fatigue entry of a response that carries a report is one `Fatigue.Apply` on the state it received**:
+    the configured function yields the ratio `f`, then `blurCriteriaValues` runs on `s` with the ONE stream of
+    the entry's `randomSeed` as magnitude and as sign stream. -/
+theorem fired_fatigue_is_one_apply (h : decideWith exp o req g = .ok resp)
+    (hi : resp.biases[i]? = some ⟨name, prob, some (.fatigue rep)⟩) :
+    ∃ params chosen fn bd seed f s s',
+      E2EBFired exp g req resp params chosen i ⟨name, prob, .fatigue fn bd seed⟩ (.fatigue rep) s s' ∧
+      name = Facts.biasFatigue ∧ fatigueRatio exp fn = .ok f ∧
+      fatigueBlur f bd s (g seed) (g seed) = .ok (s', rep) := by
+  obtain ⟨params, chosen, props, s, s', hf⟩ := e2eb_fired h hi
+  obtain ⟨hn, fn, bd, seed, f, hp, _, hf1, hf2⟩ := e2eb_fired_fatigue hf
+  dsimp only at hn hp
+  subst hp
+  exact ⟨params, chosen, fn, bd, seed, f, s, s', hf, hn, hf1, hf2⟩
+
+/-- the ratio and the blur of a fired fatigue entry -/
+theorem fired_fatigue_blur
+    (hf : E2EBFired exp g req resp params chosen i ⟨name, prob, .fatigue fn bd seed⟩ (.fatigue rep) s s') :
+    ∃ f, fatigueRatio exp fn = .ok f ∧ fatigueBlur f bd s (g seed) (g seed) = .ok (s', rep) := by
+  obtain ⟨_, fn', bd', seed', f, hp, _, hf1, hf2⟩ := e2eb_fired_fatigue hf
+  dsimp only at hp
+  cases hp
+  exact ⟨f, hf1, hf2⟩
+
+/-- frame and report, end to end (any number type): criteria and method parameters are handed on untouched,
+    alternative ids and the considered / not-considered split too; the report carries the ratio and exactly
+    the alternatives handed on -/
+theorem fatigue_frame_e2e
+    (hf : E2EBFired exp g req resp params chosen i ⟨name, prob, .fatigue fn bd seed⟩ (.fatigue rep) s s') :
+    s'.crit = s.crit ∧ s'.mp = s.mp ∧ fatigueRatio exp fn = .ok rep.f ∧ rep.co = s'.co ∧ rep.nc = s'.nc ∧
+      s'.co.map (·.id) = s.co.map (·.id) ∧ s'.nc.map (·.id) = s.nc.map (·.id) := by
+  obtain ⟨f, hf1, hf2⟩ := fired_fatigue_blur hf
+  obtain ⟨_, hc, hm, hff, hco, hnc, _⟩ := fatigueBlur_ok hf2
+  obtain ⟨e1, e2⟩ := decideApplyBias_ids hf.step
+  exact ⟨hc, hm, hff ▸ hf1, hco, hnc, e1, e2⟩
+
+end e2e
+
+section e2eRat
+variable {exp : Rat → Rat} {o : List (WCrit Rat) → List (WCrit Rat)} {req : Request Rat} {g : Int → Draws Rat}
+  {resp : Response Rat} {params s s' : DMP Rat} {chosen : List (Chosen Rat (BProps Rat))} {i : Nat}
+  {name : String} {prob : Rat} {fn : FatigueFn Rat} {bd : Bounding Rat} {seed : Int} {rep : FatigueReport Rat}
+
+/-- `fatigue_blurs_within_ratio`, end to end: every criterion value `v` of every known alternative OF THE STATE
+    RECEIVED moves by at most `|f·v|` before bounding (draws of the entry's stream in `[0,1)`); `f = 0` hands the
+    old value to the bounding; the range each criterion is bounded with is its range over the alternatives of
+    the state received; criteria and parameters untouched; the report carries `f` and the alternatives handed on -/
+theorem fatigue_blurs_within_ratio_e2e
+    (hf : E2EBFired exp g req resp params chosen i ⟨name, prob, .fatigue fn bd seed⟩ (.fatigue rep) s s')
+    (hd : ∀ u ∈ g seed, 0 ≤ u ∧ u < 1) :
+    ∃ f, fatigueRatio exp fn = .ok f ∧
+      s'.crit = s.crit ∧ s'.mp = s.mp ∧ rep.f = f ∧ rep.co = s'.co ∧ rep.nc = s'.nc ∧
+      ∃ cr : List (Crit Rat × (Rat × Rat)), cr.map (·.1) = s.crit ∧
+        (∀ x ∈ cr, valuesRange s.all x.1 = .ok x.2) ∧
+        List.Forall₂ (MovedAlt f bd cr) s.co s'.co ∧ List.Forall₂ (MovedAlt f bd cr) s.nc s'.nc := by
+  obtain ⟨f, hf1, hf2⟩ := fired_fatigue_blur hf
+  exact ⟨f, hf1, fatigue_blurs_within_ratio hf2 hd⟩
+
+/-- `one_stream_decides_magnitude_and_sign`, end to end: inside a request every value is blurred with ONE number
+    `u` of the entry's stream: up by `v·u·f` when `u < ½`, down when `u ≥ ½` -/
+theorem one_stream_decides_magnitude_and_sign_e2e
+    (hf : E2EBFired exp g req resp params chosen i ⟨name, prob, .fatigue fn bd seed⟩ (.fatigue rep) s s') :
+    ∃ f cr, fatigueRatio exp fn = .ok f ∧ biasACriteriaRanges s = .ok cr ∧
+      List.Forall₂ (BlurredAltSame f bd cr (g seed)) s.co s'.co ∧
+      List.Forall₂ (BlurredAltSame f bd cr (g seed)) s.nc s'.nc := by
+  obtain ⟨f, hf1, hf2⟩ := fired_fatigue_blur hf
+  obtain ⟨cr, hcr, h1, h2, _⟩ := one_stream_decides_magnitude_and_sign hf2
+  exact ⟨f, cr, hf1, hcr, h1, h2⟩
+
+/-- `zero_ratio_leaves_data_unchanged`, end to end: ratio 0 and bounding off ⇒ every alternative handed on holds,
+    for every criterion of the state received, exactly the value it held -/
+theorem zero_ratio_leaves_data_unchanged_e2e
+    (hf : E2EBFired exp g req resp params chosen i ⟨name, prob, .fatigue fn bd seed⟩ (.fatigue rep) s s')
+    (h0 : fatigueRatio exp fn = .ok 0) (hn : bd.nonNeg = false) (hs : ¬ 0 < bd.scaling) :
+    ∀ l l', (l = s.co ∧ l' = s'.co) ∨ (l = s.nc ∧ l' = s'.nc) →
+      List.Forall₂ (fun a a' => a'.id = a.id ∧ a'.vals.keys = s.crit.map (·.id) ∧
+        ∀ kv ∈ a'.vals, a.vals.get? kv.1 = some kv.2) l l' := by
+  obtain ⟨f, hf1, hf2⟩ := fired_fatigue_blur hf
+  rw [h0] at hf1
+  cases hf1
+  exact zero_ratio_leaves_data_unchanged hf2 hn hs
+
+/-- **`fatigue_satisfies_spec`, end to end: every fired fatigue entry of a response satisfies the fatigue spec
+    w.r.t. the state it received.**  `Spec.C17.check` (frame, every value of every considered and not-considered
+    alternative against the declared-or-observed range IN `s`, the report) accepts `(f, bounding, s, s', report)`
+    with `f` the ratio the configured function yields — whatever biases ran before and after, for all seven
+    methods.  Hypotheses: the entry's stream lies in `[0,1)`; declared ranges of the criteria of `s` are ordered
+    (true of the request's criteria by `Criteria.Validate`; criteria added by earlier biases carry ranges computed
+    by those biases).  The distinctness of the criteria ids of `s` is discharged. -/
+theorem fatigue_satisfies_spec_e2e
+    (hf : E2EBFired exp g req resp params chosen i ⟨name, prob, .fatigue fn bd seed⟩ (.fatigue rep) s s')
+    (hd : ∀ u ∈ g seed, 0 ≤ u ∧ u < 1)
+    (hord : ∀ x ∈ s.crit, ∀ r, x.range = some r → r.1 ≤ r.2) :
+    ∃ f, fatigueRatio exp fn = .ok f ∧ Spec.C17.check f bd s s' rep = true ∧
+      Spec.C17.explain f bd s s' rep = "ok" := by
+  obtain ⟨f, hf1, hf2⟩ := fired_fatigue_blur hf
+  have hnd := (e2eb_fired_crit_nodup hf).2.1
+  exact ⟨f, hf1, fatigue_satisfies_spec hf2 hd hnd hord, fatigue_explain_ok hf2 hd hnd hord⟩
+
+/-- bounding, end to end: with a positive `allowedValuesRangeScaling` every value handed on lies inside the range
+    its criterion has OVER THE ALTERNATIVES OF THE STATE RECEIVED (declared, else observed there), scaled about
+    its centre — for every criterion of `s` whose range there is ordered -/
+theorem fatigue_values_lie_in_the_scaled_range_of_the_state_received
+    (hf : E2EBFired exp g req resp params chosen i ⟨name, prob, .fatigue fn bd seed⟩ (.fatigue rep) s s')
+    (hd : ∀ u ∈ g seed, 0 ≤ u ∧ u < 1) (hs : 0 < bd.scaling)
+    (hord : ∀ x ∈ s.crit, ∀ rg, valuesRange s.all x = .ok rg → rg.1 ≤ rg.2) :
+    ∀ a' ∈ s'.co ++ s'.nc, ∀ kv ∈ a'.vals, ∃ x ∈ s.crit, ∃ rg, kv.1 = x.id ∧ valuesRange s.all x = .ok rg ∧
+      (Spec.C17.scaledRange rg bd.scaling).1 ≤ kv.2 ∧ kv.2 ≤ (Spec.C17.scaledRange rg bd.scaling).2 := by
+  obtain ⟨f, _, _, _, _, _, _, cr, hcr1, hcr2, hco, hnc⟩ := fatigue_blurs_within_ratio_e2e hf hd
+  have key : ∀ l l' : List (Alt Rat), List.Forall₂ (MovedAlt f bd cr) l l' → ∀ a' ∈ l', ∀ kv ∈ a'.vals,
+      ∃ x ∈ s.crit, ∃ rg, kv.1 = x.id ∧ valuesRange s.all x = .ok rg ∧
+        (Spec.C17.scaledRange rg bd.scaling).1 ≤ kv.2 ∧ kv.2 ≤ (Spec.C17.scaledRange rg bd.scaling).2 := by
+    intro l l' hfa a' ha' kv hkv
+    obtain ⟨a, _, _, hent⟩ := forall₂_mem_right hfa a' ha'
+    obtain ⟨c, hc, hk, v, w, _, hval, _⟩ := forall₂_mem_right hent kv hkv
+    have hx : c.1 ∈ s.crit := hcr1 ▸ List.mem_map_of_mem hc
+    have hrg := hcr2 c hc
+    refine ⟨c.1, hx, c.2, hk, hrg, ?_⟩
+    rw [hval]
+    exact bounded_inside_scaled_range bd c.2 hs (hord c.1 hx c.2 hrg) w
+  intro a' ha'
+  rcases List.mem_append.mp ha' with h | h
+  · exact key _ _ hco a' h
+  · exact key _ _ hnc a' h
+
+/-! ### M6(b): a fired fatigue with ratio 0 and an entry that does not fire -/
+
+/-- ratio 0, bounding off, and a state in which every known alternative holds exactly the declared criteria (in
+    declared order — what every earlier omission or fatigue leaves; the request itself may list values in any
+    order or hold undeclared ones, which `blurCriteriaValues` drops): the state handed on IS the state received -/
+theorem zero_ratio_fatigue_hands_on_the_state_received
+    (hf : E2EBFired exp g req resp params chosen i ⟨name, prob, .fatigue fn bd seed⟩ (.fatigue rep) s s')
+    (h0 : fatigueRatio exp fn = .ok 0) (hn : bd.nonNeg = false) (hs : ¬ 0 < bd.scaling)
+    (htidy : ∀ a ∈ s.all, a.vals.keys = s.crit.map (·.id)) : s' = s := by
+  have hz := zero_ratio_leaves_data_unchanged_e2e hf h0 hn hs
+  obtain ⟨hc, hm, _⟩ := fatigue_frame_e2e hf
+  have hnd := (e2eb_fired_crit_nodup hf).2.1
+  have key : ∀ l l' : List (Alt Rat), (∀ a ∈ l, a ∈ s.all) →
+      List.Forall₂ (fun a a' => a'.id = a.id ∧ a'.vals.keys = s.crit.map (·.id) ∧
+        ∀ kv ∈ a'.vals, a.vals.get? kv.1 = some kv.2) l l' → l' = l := by
+    intro l l' hsub hfa
+    induction hfa with
+    | nil => rfl
+    | @cons a a' l l' hab _ ih =>
+      have hk := htidy a (hsub a List.mem_cons_self)
+      have hv : a'.vals = a.vals := e2eb_kmap_eq (hab.2.1.trans hk.symm) (hk ▸ hnd) hab.2.2
+      have : a' = a := by
+        cases a; cases a'
+        simp only at hv hab
+        rw [hv, hab.1]
+      rw [this, ih fun x hx => hsub x (List.mem_cons_of_mem _ hx)]
+  have hco := key s.co s'.co (fun a ha => List.mem_append_left _ ha) (hz _ _ (Or.inl ⟨rfl, rfl⟩))
+  have hnc := key s.nc s'.nc (fun a ha => List.mem_append_right _ ha) (hz _ _ (Or.inr ⟨rfl, rfl⟩))
+  cases s; cases s'
+  simp only at hc hm hco hnc
+  rw [hc, hm, hco, hnc]
+
+/-- **… and such an entry is indistinguishable, in everything the method sees and in every other entry of the
+    response, from an entry that did not fire**: the same biases, run from the request's state on an activation
+    stream that differs from the request's only at position `i` — there with any draw `u'` that does not fire
+    (`u' ≥ probability`) — produce the same final state `resp.final` and the same `biases` list except that entry
+    `i` carries no report; the method then returns the same ranking. -/
+theorem zero_ratio_fatigue_is_indistinguishable_from_not_firing (h : decideWith exp o req g = .ok resp)
+    (hf : E2EBFired exp g req resp params chosen i ⟨name, prob, .fatigue fn bd seed⟩ (.fatigue rep) s s')
+    (h0 : fatigueRatio exp fn = .ok 0) (hn : bd.nonNeg = false) (hs : ¬ 0 < bd.scaling)
+    (htidy : ∀ a ∈ s.all, a.vals.keys = s.crit.map (·.id)) {u' : Rat} (hu' : ¬ u' < prob) :
+    processLoop (applyBias exp g) params chosen params ((g req.biasSeed).set i u') =
+        .ok (resp.final, resp.biases.set i ⟨name, prob, none⟩) ∧
+      evaluateWith o g resp.final = .ok resp.result := by
+  have e := zero_ratio_fatigue_hands_on_the_state_received hf h0 hn hs htidy
+  have hpost := hf.after
+  rw [e] at hpost
+  obtain ⟨u, hu, _⟩ := hf.drawn
+  have hd : i < (g req.biasSeed).length := by
+    rw [List.getElem?_eq_some_iff] at hu
+    exact hu.1
+  have ho : i < resp.biases.length := by
+    have := hf.out
+    rw [List.getElem?_eq_some_iff] at this
+    exact this.1
+  exact ⟨e2eb_loop_erase hf.entry hd ho hf.before hpost hu', (e2e_decideWith_ok h).2⟩
+
+/-! ### the hypotheses are satisfiable: requests in which the fatigue is the second fired bias -/
+
+/-- an omission fires, an entry does not fire, then the fatigue (ratio ⅛) fires; the hypotheses of
+    `fatigue_satisfies_spec_e2e` hold and the spec accepts the entry -/
+example : ∃ resp name prob rep n0 p0 r0 f bd s s',
+    Rdm.decide id (e2ebExReq [e2ebExOmission, e2ebExSkipped, e2ebExFatigue]) e2ebExSeeds = .ok resp ∧
+    resp.biases[2]? = some ⟨name, prob, some (.fatigue rep)⟩ ∧ resp.biases[0]? = some ⟨n0, p0, some r0⟩ ∧
+    Spec.C17.check f bd s s' rep = true := by
+  obtain ⟨resp, name, prob, rp, hr, h2, hk, n0, p0, r0, h0⟩ := e2eb_firedWith
+    (r := Rdm.decide id (e2ebExReq [e2ebExOmission, e2ebExSkipped, e2ebExFatigue]) e2ebExSeeds)
+    (j := 0) (i := 2) (k := e2ebIsFatigue) (by decide +kernel)
+  cases rp with
+  | fatigue rep =>
+    obtain ⟨params, chosen, fn, bd, seed, f, s, s', hf, _, _, _⟩ := fired_fatigue_is_one_apply hr h2
+    have hs := e2eb_received_sat hf (k := fun s =>
+      decide (∀ x ∈ s.crit, ∀ r, x.range = some r → r.1 ≤ r.2)) (by decide +kernel)
+    simp only [decide_eq_true_eq] at hs
+    obtain ⟨f', _, hchk, _⟩ := fatigue_satisfies_spec_e2e hf (e2eb_exSeeds_unit seed) hs
+    exact ⟨resp, name, prob, rep, n0, p0, r0, f', bd, s, s', hr, h2, h0, hchk⟩
+  | _ => cases hk
+
+/-- an omission fires, an entry does not fire, then a fatigue with ratio 0 and bounding off fires on the tidy
+    state the omission handed on (which is not the request's state): every hypothesis of
+    `zero_ratio_fatigue_is_indistinguishable_from_not_firing` holds; the entry has the default probability 1, so
+    the statement is instantiated with the non-firing draw `u' = 1` -/
+example : ∃ resp name prob rep n0 p0 r0 params chosen s,
+    Rdm.decide id (e2ebExReq [e2ebExOmission, e2ebExSkipped, e2ebExFatigue0]) e2ebExSeeds = .ok resp ∧
+    resp.biases[2]? = some ⟨name, prob, some (.fatigue rep)⟩ ∧ resp.biases[0]? = some ⟨n0, p0, some r0⟩ ∧
+    s ≠ params ∧
+    processLoop (applyBias id (genOf e2ebExSeeds)) params chosen params ((genOf e2ebExSeeds 5).set 2 1) =
+      .ok (resp.final, resp.biases.set 2 ⟨name, prob, none⟩) := by
+  obtain ⟨resp, name, prob, rp, hr, h2, hk, n0, p0, r0, h0⟩ := e2eb_firedWith
+    (r := Rdm.decide id (e2ebExReq [e2ebExOmission, e2ebExSkipped, e2ebExFatigue0]) e2ebExSeeds)
+    (j := 0) (i := 2) (k := e2ebIsFatigue) (by decide +kernel)
+  cases rp with
+  | fatigue rep =>
+    obtain ⟨params, chosen, fn, bd, seed, f, s, s', hf, _, _, _⟩ := fired_fatigue_is_one_apply hr h2
+    have hb := e2eb_fired_chosenAt hf
+    have hb' : e2ebChosenAt (e2ebExReq [e2ebExOmission, e2ebExSkipped, e2ebExFatigue0]) 2 =
+        some ⟨Facts.biasFatigue, 1, .fatigue (.const 0) ⟨-1, false⟩ 3⟩ := rfl
+    rw [hb'] at hb
+    simp only [Option.some.injEq, Chosen.mk.injEq, BProps.fatigue.injEq] at hb
+    obtain ⟨rfl, rfl, rfl, rfl, rfl⟩ := hb
+    have hs := e2eb_received_sat hf (k := fun s =>
+      decide (∀ a ∈ s.all, a.vals.keys = s.crit.map (·.id)) && decide (s.crit.length = 1)) (by decide +kernel)
+    simp only [Bool.and_eq_true, decide_eq_true_eq] at hs
+    have hne : s ≠ params := by
+      intro e
+      have hp := hf.prepared
+      have hp' : prepare (e2ebExReq [e2ebExOmission, e2ebExSkipped, e2ebExFatigue0]) =
+          .ok (⟨[⟨"d", [("c0", 0), ("c1", 4)]⟩], [⟨"b", [("c0", 3), ("c1", 1)]⟩, ⟨"a", [("c0", 1), ("c1", 2)]⟩],
+            [e2eExC0, e2eExC1], .ws [⟨e2eExC0, 1⟩, ⟨e2eExC1, 2⟩]⟩,
+           [⟨Facts.biasOmission, 1, e2ebExOmission.props⟩, ⟨Facts.biasReversal, 1 / 4, e2ebExSkipped.props⟩,
+            ⟨Facts.biasFatigue, 1, e2ebExFatigue0.props⟩]) := rfl
+      rw [hp'] at hp
+      cases hp
+      rw [e] at hs
+      exact absurd hs.2 (by decide)
+    have := zero_ratio_fatigue_is_indistinguishable_from_not_firing (u' := 1) hr hf rfl rfl (by decide +kernel) hs.1
+      (by decide +kernel)
+    exact ⟨resp, _, _, rep, n0, p0, r0, params, chosen, s, hr, h2, h0, hne, this.1⟩
+  | _ => cases hk
+
+end e2eRat
 
 end Rdm.Props.C17
